@@ -33,16 +33,22 @@ func main() {
 			os.Exit(2)
 		}
 	}
-	gen, err := gensrc(*repo)
-	if err != nil {
-		fmt.Fprintln(os.Stderr, "gensrc:", err)
-		os.Exit(1)
+	// the two parts are independent: a failure of one must not take the other down (bin/check attributes a
+	// failed part to the properties that depend on it)
+	failed := 0
+	if gen, err := gensrc(*repo); err != nil {
+		fmt.Fprintln(os.Stderr, "kextract part gensrc failed:", err)
+		failed |= 1
+	} else {
+		write("Gen.lean", gen)
 	}
-	write("Gen.lean", gen)
-	facts, err := extractFacts(*repo)
-	if err != nil {
-		fmt.Fprintln(os.Stderr, "facts:", err)
-		os.Exit(1)
+	if facts, err := extractFacts(*repo); err != nil {
+		fmt.Fprintln(os.Stderr, "kextract part facts failed:", err)
+		failed |= 2
+	} else {
+		write("Facts.lean", facts)
 	}
-	write("Facts.lean", facts)
+	if failed != 0 {
+		os.Exit(10 + failed)
+	}
 }
